@@ -43,23 +43,46 @@ theorem toC_projectorsZ (n q : Nat) (hq : q < n) (p0 p1 : Mat) (h : projectorsZ 
     · rw [if_neg (fun h' => hab (idx_injective a b h'.1)), if_neg hab, gqC_zero]
   exact ⟨key false 0 rfl, key true 1 rfl, rfl, rfl⟩
 
-/-- both outcomes have probability ½: the forced outcome is taken, the state is `2 · Π ρ Π` -/
-theorem applyMeasurement_random (ρ p0 p1 : Mat) (det : Bool) (hn : ρ.n = p0.n)
-    (hp0 : (ρ.mul p0).trace.re = 1/2) (hp1 : (ρ.mul p1).trace.re = 1/2) :
+/-- twice the absolute tolerance of `np.isclose`: with a total weight above it the thresholds of
+    `DensityMatrix.apply_measurement` decide "random / deterministic" and the outcome as the tableaux do -/
+def wThr : Rat := 2 / 100000000
+
+theorem isclose0_false (x : Rat) (h : 1 / 100000000 < x) : isclose0 x = false := by
+  unfold isclose0
+  rw [rat_abs_eq, abs_of_pos (by linarith)]
+  exact decide_eq_false (by linarith)
+
+theorem isclose0_zero : isclose0 0 = true := by
+  unfold isclose0; rw [rat_abs_eq]; norm_num
+
+/-- both outcomes have probability ½ (of the weight `W`): the forced outcome is taken, the state is `2 · Π ρ Π` -/
+theorem applyMeasurement_random (ρ p0 p1 : Mat) (det : Bool) (W : Rat) (hW : wThr < W) (hn : ρ.n = p0.n)
+    (hp0 : (ρ.mul p0).trace.re = W / 2) (hp1 : (ρ.mul p1).trace.re = W / 2) :
     applyMeasurement ρ p0 p1 det = .ok (some (Mat.smul 2 (Mat.conjBy (if det then p1 else p0) ρ)).norm, det) := by
+  unfold wThr at hW
   unfold applyMeasurement
   rw [if_neg (fun h => h hn)]
   simp only [hp0, hp1]
-  cases det <;> norm_num [isclose0, rat_abs_eq]
+  have hpos : ¬ (W / 2 < 0) := by linarith
+  have hic : isclose0 (W / 2) = false := isclose0_false _ (by linarith)
+  have hW0 : W ≠ 0 := by linarith
+  have hWp : 0 < W := by linarith
+  have h3 : W / 2 / W = 1 / 2 := by field_simp
+  cases det <;> norm_num [hpos, hic, hWp, h3]
 
 /-- outcome `o0` has probability 1: it is reported whatever the forced outcome, the state is `Π ρ Π` -/
-theorem applyMeasurement_det (ρ p0 p1 : Mat) (det o0 : Bool) (hn : ρ.n = p0.n)
-    (hp0 : (ρ.mul p0).trace.re = if o0 then 0 else 1) (hp1 : (ρ.mul p1).trace.re = if o0 then 1 else 0) :
+theorem applyMeasurement_det (ρ p0 p1 : Mat) (det o0 : Bool) (W : Rat) (hW : wThr < W) (hn : ρ.n = p0.n)
+    (hp0 : (ρ.mul p0).trace.re = if o0 then 0 else W) (hp1 : (ρ.mul p1).trace.re = if o0 then W else 0) :
     applyMeasurement ρ p0 p1 det = .ok (some (Mat.smul 1 (Mat.conjBy (if o0 then p1 else p0) ρ)).norm, o0) := by
+  unfold wThr at hW
   unfold applyMeasurement
   rw [if_neg (fun h => h hn)]
   simp only [hp0, hp1]
-  cases det <;> cases o0 <;> norm_num [isclose0, rat_abs_eq]
+  have hpos : ¬ (W < 0) := by linarith
+  have hic : isclose0 W = false := isclose0_false _ (by linarith)
+  have hW0 : W ≠ 0 := by linarith
+  have hWp : 0 < W := by linarith
+  cases det <;> cases o0 <;> simp [hpos, hic, isclose0_zero, hWp, hW0]
 
 /-! ### the invariant -/
 
@@ -77,8 +100,8 @@ structure Inv (n : Nat) (s : StabSt) (d : DmSt) : Prop where
   dm : ∃ ρ, d.ρ = some ρ ∧ ρ.n = 2 ^ n ∧ toC n ρ = mixRho n s.mix
   good : MixGood n s.mix
 
-theorem total_ne_nil (m : Mixture) (h : Mix.total m = 1) : m ≠ [] := by
-  intro e; subst e; simp [Mix.total_nil] at h
+theorem total_ne_nil (m : Mixture) (h : wThr < Mix.total m) : m ≠ [] := by
+  intro e; subst e; simp [Mix.total_nil, wThr] at h; norm_num at h
 
 theorem trace_re_of (n : Nat) (ρ p : Mat) (hρ : ρ.n = 2 ^ n) (x : Rat)
     (h : (toC n ρ * toC n p).trace = ((x : ℚ) : ℂ)) : (ρ.mul p).trace.re = x := by
@@ -87,9 +110,9 @@ theorem trace_re_of (n : Nat) (ρ p : Mat) (hρ : ρ.n = 2 ^ n) (x : Rat)
     rw [gqC_mulTrace n ρ p hρ, h, gqC_ofRat]
   rw [e]
 
-/-- **one measurement on both sides**: total weight 1, all branches alike -/
+/-- **one measurement on both sides**: total weight above the threshold, all branches alike -/
 theorem measure_lockstep (n q : Nat) (hq : q < n) (det : Bool) (m : Mixture) (ρ p0 p1 : Mat) (hg : MixGood n m)
-    (hρn : ρ.n = 2 ^ n) (hρ : toC n ρ = mixRho n m) (ht : Mix.total m = 1) (hu : uniformMeas q det m = true)
+    (hρn : ρ.n = 2 ^ n) (hρ : toC n ρ = mixRho n m) (ht : wThr < Mix.total m) (hu : uniformMeas q det m = true)
     (hp : projectorsZ n q = .ok (p0, p1)) :
     ∃ ρ' o, applyMeasurement ρ p0 p1 det = .ok (some ρ', o) ∧ ρ'.n = 2 ^ n ∧
       toC n ρ' = mixRho n (Mix.measure q det m).1 ∧ (∀ o' ∈ (Mix.measure q det m).2, o' = o) := by
@@ -107,11 +130,11 @@ theorem measure_lockstep (n q : Nat) (hq : q < n) (det : Bool) (m : Mixture) (ρ
       have ho : (t0.zMeasure q det).2.1 = det := (branch_random n t0 hn0 hv0 hr0 q hq det pp hpp).2.1
       rw [hr, ho] at hspec
       obtain ⟨r1, r2, r3⟩ := measure_random n q hq det _ hg hspec
-      have t0' : (ρ.mul p0).trace.re = 1/2 :=
-        trace_re_of n ρ p0 hρn (1/2) (by rw [hρ, e0, r2 false, ht]; push_cast; ring)
-      have t1' : (ρ.mul p1).trace.re = 1/2 :=
-        trace_re_of n ρ p1 hρn (1/2) (by rw [hρ, e1, r2 true, ht]; push_cast; ring)
-      refine ⟨_, det, applyMeasurement_random ρ p0 p1 det hnn t0' t1', ?_, ?_, r3⟩
+      have t0' : (ρ.mul p0).trace.re = Mix.total ((w0, t0) :: rest) / 2 :=
+        trace_re_of n ρ p0 hρn _ (by rw [hρ, e0, r2 false]; push_cast; ring)
+      have t1' : (ρ.mul p1).trace.re = Mix.total ((w0, t0) :: rest) / 2 :=
+        trace_re_of n ρ p1 hρn _ (by rw [hρ, e1, r2 true]; push_cast; ring)
+      refine ⟨_, det, applyMeasurement_random ρ p0 p1 det _ ht hnn t0' t1', ?_, ?_, r3⟩
       · show (if det = true then p1 else p0).n = 2 ^ n
         cases det <;> simp [n0, n1]
       · have hsz : (Mat.smul 2 (Mat.conjBy (if det = true then p1 else p0) ρ)).n = 2 ^ n := by
@@ -128,17 +151,17 @@ theorem measure_lockstep (n q : Nat) (hq : q < n) (det : Bool) (m : Mixture) (ρ
       rw [hr] at hspec
       obtain ⟨r1, r2, r3, r4, r5⟩ := measure_det n q hq det (t0.zMeasure q det).2.1 _ hg hspec
       generalize (t0.zMeasure q det).2.1 = o0 at r2 r3 r4 r5
-      have t0' : (ρ.mul p0).trace.re = if o0 then 0 else 1 := by
+      have t0' : (ρ.mul p0).trace.re = if o0 then 0 else Mix.total ((w0, t0) :: rest) := by
         cases o0
-        · exact trace_re_of n ρ p0 hρn 1 (by rw [hρ, e0, r3, ht])
+        · exact trace_re_of n ρ p0 hρn (Mix.total ((w0, t0) :: rest)) (by rw [hρ, e0, r3])
         · exact trace_re_of n ρ p0 hρn 0 (by rw [hρ, e0]; simpa using r4)
-      have t1' : (ρ.mul p1).trace.re = if o0 then 1 else 0 := by
+      have t1' : (ρ.mul p1).trace.re = if o0 then Mix.total ((w0, t0) :: rest) else 0 := by
         cases o0
         · exact trace_re_of n ρ p1 hρn 0 (by rw [hρ, e1]; simpa using r4)
-        · exact trace_re_of n ρ p1 hρn 1 (by rw [hρ, e1, r3, ht])
+        · exact trace_re_of n ρ p1 hρn (Mix.total ((w0, t0) :: rest)) (by rw [hρ, e1, r3])
       have hpn : (if o0 = true then p1 else p0).n = 2 ^ n := by cases o0 <;> simp [n0, n1]
       have hpc : toC n (if o0 = true then p1 else p0) = projZ n q o0 := by cases o0 <;> simp [e0, e1]
-      refine ⟨_, o0, applyMeasurement_det ρ p0 p1 det o0 hnn t0' t1', hpn, ?_, r5⟩
+      refine ⟨_, o0, applyMeasurement_det ρ p0 p1 det o0 _ ht hnn t0' t1', hpn, ?_, r5⟩
       have hsz : (Mat.smul 1 (Mat.conjBy (if o0 = true then p1 else p0) ρ)).n = 2 ^ n := hpn
       rw [toC_norm n _ hsz, toC_smul, toC_conjBy n _ _ hpn, hpc, hρ, r1]
       unfold conjH
@@ -168,7 +191,7 @@ def MeasKind (k : Kind) : Prop := k = .measZ ∨ k = .ccnot ∨ k = .ccz
 theorem measGate_lockstep (np n : Nat) (det : Bool) (op : COp) (hk : MeasKind op.kind) (hw : OpWF n np op)
     (s s1 : StabSt) (d d1 : DmSt) (hI : Inv n s d)
     (hs : stabGate np n det op s = .ok s1) (hd : dmGate np n det op d = .ok d1)
-    (hu : s1.nonUniform = false) (hl : s1.lossMeas = false) : Inv n s1 d1 := by
+    (hu : s1.nonUniform = false) (hW : wThr < Mix.total s.mix) : Inv n s1 d1 := by
   obtain ⟨⟨ρ, hρs, hρn, hρ⟩, hg⟩ := hI
   have hq1 := hw.1
   unfold stabGate at hs
@@ -179,14 +202,14 @@ theorem measGate_lockstep (np n : Nat) (det : Bool) (op : COp) (hk : MeasKind op
     unfold stabMeasZ at hs
     rw [if_pos hq1] at hs
     injection hs with hs; subst hs
-    simp only [Bool.or_eq_false_iff, Bool.not_eq_false', bne_eq_false_iff_eq] at hu hl
+    simp only [Bool.or_eq_false_iff, Bool.not_eq_false'] at hu
     cases hp : projectorsZ n (qIndex np op.r1 op.t1) with
     | error e => rw [hp] at hd; cases hd
     | ok pp =>
       obtain ⟨p0, p1⟩ := pp
       rw [hp] at hd
       simp only at hd
-      obtain ⟨ρ', o, hm, hn', hc, _⟩ := measure_lockstep n _ hq1 det s.mix ρ p0 p1 hg hρn hρ hl.2 hu.2 hp
+      obtain ⟨ρ', o, hm, hn', hc, _⟩ := measure_lockstep n _ hq1 det s.mix ρ p0 p1 hg hρn hρ hW hu.2 hp
       rw [hm] at hd
       injection hd with hd; subst hd
       exact ⟨⟨ρ', rfl, hn', hc⟩, measure_good n _ hq1 det s.mix hg⟩
@@ -196,14 +219,14 @@ theorem measGate_lockstep (np n : Nat) (det : Bool) (op : COp) (hk : MeasKind op
     unfold stabClassical at hs
     rw [if_pos ⟨hq1, hq2⟩] at hs
     injection hs with hs; subst hs
-    simp only [Bool.or_eq_false_iff, Bool.not_eq_false', bne_eq_false_iff_eq] at hu hl
+    simp only [Bool.or_eq_false_iff, Bool.not_eq_false'] at hu
     cases hp : projectorsZ n (qIndex np op.r1 op.t1) with
     | error e => rw [hp] at hd; cases hd
     | ok pp =>
       obtain ⟨p0, p1⟩ := pp
       rw [hp] at hd
       simp only at hd
-      obtain ⟨ρ', o, hm, hn', hc, hall⟩ := measure_lockstep n _ hq1 det s.mix ρ p0 p1 hg hρn hρ hl.2 hu.2 hp
+      obtain ⟨ρ', o, hm, hn', hc, hall⟩ := measure_lockstep n _ hq1 det s.mix ρ p0 p1 hg hρn hρ hW hu.2 hp
       rw [hm] at hd
       simp only at hd
       have hlen := Mix.measure_length (qIndex np op.r1 op.t1) det s.mix
@@ -369,10 +392,18 @@ theorem stabGate_real (np n : Nat) (det : Bool) (op : COp) (hf : MFree op) (s s1
   case measZ => rcases hf with hf | hf <;> simp [hk, Kind.isOneQubit, Kind.isCtrlPair] at hf
   case param => cases h
 
-/-- the operations of the extended class: the measurement-free ones of `OpOK`, and `MeasurementZ` / `ClassicalCNOT` /
-    `ClassicalCZ` on existing qubits without noise attached -/
+/-- a photon-loss rate lies in `[0,1]` -/
+def LossOK : NoiseM → Prop
+  | .loss r _ => 0 ≤ r ∧ r ≤ 1
+  | _ => True
+
+/-- depolarizing probability and loss rate in `[0,1]` -/
+def ParamOK2 (nm : NoiseM) : Prop := ParamOK nm ∧ LossOK nm
+
+/-- the operations of the extended class: the measurement-free ones of `OpOK` (loss rates in `[0,1]`), and `MeasurementZ` /
+    `ClassicalCNOT` / `ClassicalCZ` on existing qubits without noise attached -/
 inductive OpOK2 (n np : Nat) (op : COp) : Prop
-  | unitary (h : OpOK n np op)
+  | unitary (h : OpOK n np op) (l0 : LossOK op.n0) (l1 : LossOK op.n1)
   | meas (hk : MeasKind op.kind) (hw : OpWF n np op) (h0 : op.n0.isNone = true) (h1 : op.n1.isNone = true)
 
 theorem OpOK2.wf {n np : Nat} {op : COp} (h : OpOK2 n np op) : OpWF n np op := by
@@ -385,9 +416,16 @@ theorem OpOK2.kind {n np : Nat} {op : COp} (h : OpOK2 n np op) : MFree op ∨ Me
   | unitary h => exact Or.inl h.mfree
   | meas hk _ _ _ => exact Or.inr hk
 
+theorem lossOK_of_none (nm : NoiseM) (h : nm.isNone = true) : LossOK nm := by cases nm <;> simp_all [NoiseM.isNone, LossOK]
+
+theorem OpOK2.loss {n np : Nat} {op : COp} (h : OpOK2 n np op) : LossOK op.n0 ∧ LossOK op.n1 := by
+  cases h with
+  | unitary _ l0 l1 => exact ⟨l0, l1⟩
+  | meas _ _ h0 h1 => exact ⟨lossOK_of_none _ h0, lossOK_of_none _ h1⟩
+
 def ActOK2 (n np : Nat) (arr : Array COp) : Act → Prop
   | .gate k => ∀ op, arr[k]? = some op → OpWF n np op ∧ (MFree op ∨ MeasKind op.kind)
-  | .noise _ _ q nm => q < n ∧ ParamOK nm
+  | .noise _ _ q nm => q < n ∧ ParamOK2 nm
   | .replace _ => True
 
 theorem getD_none (arr : Array COp) (k : Nat) (hk : arr[k]? = none) :
@@ -404,11 +442,50 @@ theorem getD_some (arr : Array COp) (k : Nat) (op : COp) (hk : arr[k]? = some op
   have := Array.getElem?_eq_getElem hlt
   rw [this] at hk; injection hk
 
+/-! #### the total weight never grows (loss rates in `[0,1]`) -/
+
+theorem weight_mono (thr f T : Rat) (h0 : 0 < thr) (hf0 : 0 ≤ f) (hf1 : f ≤ 1) (h : thr < f * T) : thr < T := by
+  have hT : 0 < T := by
+    by_contra hc
+    have : f * T ≤ 0 := mul_nonpos_of_nonneg_of_nonpos hf0 (not_lt.1 hc)
+    linarith
+  have : f * T ≤ 1 * T := mul_le_mul_of_nonneg_right hf1 (le_of_lt hT)
+  linarith
+
+theorem wThr_pos : 0 < wThr := by unfold wThr; norm_num
+
+theorem lossOf_range (a : Act) (h : ∀ k side q nm, a = .noise k side q nm → LossOK nm) : 0 ≤ lossOf a ∧ lossOf a ≤ 1 := by
+  cases a with
+  | gate k => simp [lossOf]
+  | replace k => simp [lossOf]
+  | noise k side q nm =>
+    have hl := h k side q nm rfl
+    cases nm with
+    | loss r a =>
+      have h1 : 0 ≤ r := hl.1
+      have h2 : r ≤ 1 := hl.2
+      simp only [lossOf]
+      constructor <;> linarith
+    | none => simp [lossOf]
+    | depol p a => simp [lossOf]
+    | pauli k a => simp [lossOf]
+    | replace => simp [lossOf]
+    | other => simp [lossOf]
+
+theorem lossFactor_range : ∀ (tr : List Act), TraceP LossOK tr → 0 ≤ lossFactor tr ∧ lossFactor tr ≤ 1
+  | [], _ => by simp [lossFactor]
+  | a :: as, h => by
+    obtain ⟨a0, a1⟩ := lossOf_range a (fun k side q nm e => h k side q nm (by rw [e]; exact List.mem_cons_self))
+    obtain ⟨i0, i1⟩ := lossFactor_range as (fun k side q nm hm => h k side q nm (List.mem_cons_of_mem _ hm))
+    simp only [lossFactor]
+    exact ⟨mul_nonneg a0 i0, by calc lossOf a * lossFactor as ≤ 1 * 1 := mul_le_mul a1 i1 i0 (by norm_num)
+                                  _ = 1 := by norm_num⟩
+
 /-- one action on both sides -/
 theorem act_lockstep (np n : Nat) (det : Bool) (arr : Array COp) (s s1 : StabSt) (d d1 : DmSt) (a : Act)
     (ha : ActOK2 n np arr a) (hI : Inv n s d)
     (hs : stabAct np n det arr s a = .ok s1) (hd : dmAct np n det arr d a = .ok d1)
-    (hu : s1.nonUniform = false) (hl : s1.lossMeas = false) : Inv n s1 d1 := by
+    (hu : s1.nonUniform = false) (hW : wThr < Mix.total s1.mix) : Inv n s1 d1 := by
   obtain ⟨⟨ρ, hρs, hρn, hρ⟩, hg⟩ := hI
   have hh : (toC n ρ)ᴴ = toC n ρ := by rw [hρ]; exact mixRho_herm n _ hg
   cases a with
@@ -432,7 +509,8 @@ theorem act_lockstep (np n : Nat) (det : Bool) (arr : Array COp) (s s1 : StabSt)
         exact ⟨⟨ρ', hρ', n2, by rw [e2, hρ, e1]⟩,
           mixGood_of n _ (stabGate_ok np n det op hw.2.2 s s1 hg.ok hs)
             (stabGate_real np n det op hf s s1 (fun x hx => (hg x hx).2.2) hs)⟩
-      · exact measGate_lockstep np n det op hm hw s s1 d d1 ⟨⟨ρ, hρs, hρn, hρ⟩, hg⟩ hs hd hu hl
+      · have hWs : wThr < Mix.total s.mix := by rw [← stabGate_total np n det op s s1 hs]; exact hW
+        exact measGate_lockstep np n det op hm hw s s1 d d1 ⟨⟨ρ, hρs, hρn, hρ⟩, hg⟩ hs hd hu hWs
   | noise k side q nm =>
     simp only [stabAct] at hs
     simp only [dmAct, hρs] at hd
@@ -444,20 +522,25 @@ theorem act_lockstep (np n : Nat) (det : Bool) (arr : Array COp) (s s1 : StabSt)
       | error e => rw [hn2] at hd; cases hd
       | ok r =>
         rw [hn2] at hd; injection hd with hd; subst hd
-        obtain ⟨e1, _⟩ := applyNoise_mixRho n q ha.1 nm ha.2 s.mix m' hg.mixN hn
+        obtain ⟨e1, _⟩ := applyNoise_mixRho n q ha.1 nm ha.2.1 s.mix m' hg.mixN hn
         obtain ⟨e2, n2⟩ := dmNoise_toC n q ha.1 nm ρ r hρn hh hn2
         exact ⟨⟨r, rfl, n2, by rw [e2, hρ, e1]⟩,
           mixGood_of n _ (applyNoise_ok n q ha.1 nm s.mix m' hg.ok hn)
             (applyNoise_real nm q s.mix m' (fun x hx => (hg x hx).2.2) hn)⟩
   | replace k => simp [stabAct] at hs
 
+theorem actOK2_loss (n np : Nat) (arr : Array COp) (acts : List Act) (h : ∀ a ∈ acts, ActOK2 n np arr a) :
+    TraceP LossOK acts := by
+  intro k side q nm hm
+  exact (h _ hm).2.2
+
 theorem run_lockstep (np n : Nat) (det : Bool) (arr : Array COp) :
     ∀ (acts : List Act) (s s' : StabSt) (d d' : DmSt), (∀ a ∈ acts, ActOK2 n np arr a) → Inv n s d →
       runStabActs np n det arr acts s = .ok s' → runDmActs np n det arr acts d = .ok d' →
-      s'.nonUniform = false → s'.lossMeas = false → Inv n s' d'
+      s'.nonUniform = false → wThr < Mix.total s'.mix → Inv n s' d'
   | [], s, s', d, d', _, hI, hs, hd, _, _ => by
     simp [runStabActs] at hs; simp [runDmActs] at hd; subst hs; subst hd; exact hI
-  | a :: as, s, s', d, d', hw, hI, hs, hd, hu, hl => by
+  | a :: as, s, s', d, d', hw, hI, hs, hd, hu, hW => by
     simp only [runStabActs] at hs
     simp only [runDmActs] at hd
     cases ha : stabAct np n det arr s a with
@@ -469,20 +552,22 @@ theorem run_lockstep (np n : Nat) (det : Bool) (arr : Array COp) :
       | ok d1 =>
         rw [hb] at hd
         have hfl := runStabActs_flags np n det arr as s1 s' hs
-        have hI1 := act_lockstep np n det arr s s1 d d1 a (hw a List.mem_cons_self) hI ha hb (hfl.1 hu) (hfl.2 hl)
-        exact run_lockstep np n det arr as s1 s' d1 d' (fun b hb' => hw b (List.mem_cons_of_mem _ hb')) hI1 hs hd hu hl
-
-theorem measKind_not_mfree (op : COp) (hk : MeasKind op.kind) : op.kind.isCtrlPair = false ∧ op.kind.isOneQubit = false := by
-  rcases hk with h | h | h <;> simp [h, Kind.isCtrlPair, Kind.isOneQubit]
+        have hrange := lossFactor_range as (actOK2_loss n np arr as (fun b hb' => hw b (List.mem_cons_of_mem _ hb')))
+        have hW1 : wThr < Mix.total s1.mix := by
+          have e := runStabActs_total np n det arr as s1 s' hs
+          rw [e] at hW
+          exact weight_mono _ _ _ wThr_pos hrange.1 hrange.2 hW
+        have hI1 := act_lockstep np n det arr s s1 d d1 a (hw a List.mem_cons_self) hI ha hb (hfl.1 hu) hW1
+        exact run_lockstep np n det arr as s1 s' d1 d' (fun b hb' => hw b (List.mem_cons_of_mem _ hb')) hI1 hs hd hu hW
 
 theorem go_lockstep (ns : Bool) (np n : Nat) (det : Bool) (arr : Array COp)
     (harr : ∀ (j : Nat) (op : COp), arr[j]? = some op → OpOK2 n np op) :
     ∀ (ops : List COp) (k : Nat) (s s' : StabSt) (d d' : DmSt), (∀ op ∈ ops, OpOK2 n np op) → Inv n s d →
       stabGo ns np n det arr ops k s = .ok s' → dmGo ns np n det arr ops k d = .ok d' →
-      s'.nonUniform = false → s'.lossMeas = false → Inv n s' d'
+      s'.nonUniform = false → wThr < Mix.total s'.mix → Inv n s' d'
   | [], k, s, s', d, d', _, hI, hs, hd, _, _ => by
     simp [stabGo] at hs; simp [dmGo] at hd; subst hs; subst hd; exact hI
-  | op :: rest, k, s, s', d, d', hw, hI, hs, hd, hu, hl => by
+  | op :: rest, k, s, s', d, d', hw, hI, hs, hd, hu, hW => by
     simp only [stabGo] at hs
     simp only [dmGo] at hd
     split at hs
@@ -508,9 +593,10 @@ theorem go_lockstep (ns : Bool) (np n : Nat) (det : Bool) (arr : Array COp)
             have hacts : ∀ a ∈ acts, ActOK2 n np arr a := by
               have gate_ok : ActOK2 n np arr (.gate k) := fun op' hop' => ⟨(harr k op' hop').wf, (harr k op' hop').kind⟩
               cases ho with
-              | unitary h =>
+              | unitary h l0 l1 =>
                 intro a ha
-                rcases placeOp_good' n np ns .stab op k h.wf h.p0 h.p1 acts hp a ha with e | e | ⟨sd, q, nm, e, hq, hP⟩
+                rcases placeOp_goodP ParamOK2 ⟨trivial, trivial⟩ n np ns .stab op k h.wf ⟨h.p0, l0⟩ ⟨h.p1, l1⟩ acts hp a ha
+                  with e | e | ⟨sd, q, nm, e, hq, hP⟩
                 · subst e; exact gate_ok
                 · subst e; trivial
                 · subst e; exact ⟨hq, hP⟩
@@ -521,18 +607,26 @@ theorem go_lockstep (ns : Bool) (np n : Nat) (det : Bool) (arr : Array COp)
                 simp only [List.mem_singleton] at ha
                 subst ha; exact gate_ok
             have hfl := stabGo_flags ns np n det arr rest (k + 1) s1 s' hs
-            have hI1 := run_lockstep np n det arr acts s s1 d d1 hacts hI hr hr2 (hfl.1 hu) (hfl.2 hl)
+            have hW1 : wThr < Mix.total s1.mix := by
+              obtain ⟨tr, htr, e⟩ := stabGo_total ns np n det arr rest (k + 1) s1 s' hs
+              have hrange := lossFactor_range tr (traceGo_P LossOK trivial ns .stab np n rest (k + 1) tr
+                (fun o ho' => ⟨(hw o (List.mem_cons_of_mem _ ho')).wf, (hw o (List.mem_cons_of_mem _ ho')).loss⟩) htr)
+              rw [e] at hW
+              exact weight_mono _ _ _ wThr_pos hrange.1 hrange.2 hW
+            have hI1 := run_lockstep np n det arr acts s s1 d d1 hacts hI hr hr2 (hfl.1 hu) hW1
             exact go_lockstep ns np n det arr harr rest (k + 1) s1 s' d1 d'
-              (fun o ho' => hw o (List.mem_cons_of_mem _ ho')) hI1 hs hd hu hl
+              (fun o ho' => hw o (List.mem_cons_of_mem _ ho')) hI1 hs hd hu hW
 
-/-- **C06 (c) with measurements on which all branches agree**: gates, noise, `MeasurementZ`, `ClassicalCNOT`, `ClassicalCZ`.
-    If the stabilizer compile returns with both analysis flags off — every executed measurement found all branches agreeing on
-    "random?" and on the outcome (`nonUniform = false`) and the total weight 1 (`lossMeas = false`) — and the density-matrix
-    compile returns, then the density matrix equals `Σ_k w_k ρ(T_k)` of the mixture, entry by entry.  Every number of qubits. -/
+/-- **C06 (c) with measurements on which all branches agree**: gates, noise (photon loss included), `MeasurementZ`,
+    `ClassicalCNOT`, `ClassicalCZ`.  If the stabilizer compile returns with the flag `nonUniform` off — every executed
+    measurement found all branches agreeing on "random?" and on the outcome — and a total weight above `2·10⁻⁸` (twice the
+    `np.isclose` tolerance `apply_measurement` uses; the weight never grows, so it was above it at every measurement), and the
+    density-matrix compile returns, then the density matrix equals `Σ_k w_k ρ(T_k)` of the mixture, entry by entry.
+    Every number of qubits. -/
 theorem dm_equals_mixture_meas (ns : Bool) (ne np nc : Nat) (det : Bool) (ops : List COp)
     (hw : ∀ op ∈ ops, OpOK2 (ne + np) np op) (s : StabSt) (d : DmSt)
     (hs : compileStab ns ne np nc det ops = .ok s) (hd : compileDM ns ne np nc det ops = .ok d)
-    (hu : s.nonUniform = false) (hl : s.lossMeas = false) :
+    (hu : s.nonUniform = false) (hW : wThr < Mix.total s.mix) :
     ∃ ρ, d.ρ = some ρ ∧ Mat.EqOn ρ (mixtureDensity (ne + np) s.mix) := by
   unfold compileStab at hs
   unfold compileDM at hd
@@ -548,7 +642,7 @@ theorem dm_equals_mixture_meas (ns : Bool) (ne np nc : Nat) (det : Bool) (ops : 
       intro j op hop
       apply hw
       have : op ∈ ops.toArray := Array.mem_of_getElem? hop
-      simpa using this) ops 0 _ s _ d hw hI0 hs hd hu hl
+      simpa using this) ops 0 _ s _ d hw hI0 hs hd hu hW
   obtain ⟨e3, n3⟩ := toC_mixtureDensity (ne + np) s.mix hg.mixN
   exact ⟨ρ, hρ, toC_inj (ne + np) _ _ hn n3 (by rw [e, e3])⟩
 
